@@ -75,12 +75,10 @@ def design_check(prop, tier, wd, devs_open):
     runs = []
     for alpha in ALPHAS[prop]:
         if alpha == "events":
-            depth = 6 if tier == "quick" else 7
+            depth = 5 if tier == "quick" else 7
             groups = [("os2_cap1", 1)] if tier == "quick" else [("os2_cap1", 1), ("os2_cap2", 0), ("mixed", 1)]
-            if len(ALPHAS[prop]) > 1 and tier == "quick":
-                depth = 5
         else:
-            depth = 5 if tier == "quick" else 6
+            depth = 4 if tier == "quick" else 6
             groups = [("os2_cap1", 1)] if tier == "quick" else [("os2_cap1", 1), ("mixed", 0)]
         runs += [(alpha, depth, g) for g in groups]
     for alpha, depth, (model, retries) in runs:
@@ -89,7 +87,7 @@ def design_check(prop, tier, wd, devs_open):
                       {"MaxUpd": 3 if alpha == "events" else 1, "MaxSteps": depth, "Classes": ("<-", "Cl123"),
                        "MonName": '"%s"' % prop, "Alpha": '"%s"' % alpha})
         vlib.write_cfg(cfg, "Spec", c, ["NoViolation", "NoPanic", "CountersExact"], view="View")
-        r = vlib.model_check("MC_O_events.tla", cfg, workers=12, timeout=3000)
+        r = vlib.model_check("MC_O_events.tla", cfg, workers=8, timeout=3000)
         out["runs"].append({"alpha": alpha, "model": model, "retries": retries, "depth": depth, "distinct": r["distinct"],
                             "generated": r["generated"], "wall_s": r["wall_s"], "dev": []})
         out["states"] += r["distinct"]
@@ -159,7 +157,7 @@ def covered(tier, wd, devs_open, alpha, groups, depth):
                       {"MaxUpd": 4 if alpha == "events" else 1, "MaxSteps": depth, "Classes": ("<-", "Cl123"),
                        "MonName": '"none"', "Alpha": '"%s"' % alpha})
         vlib.write_cfg(cfg, "Spec", c, ["ExportAll"], view="CoverView")
-        hists, n = vlib.cover("MC_O_events.tla", cfg, workers=12)
+        hists, n = vlib.cover("MC_O_events.tla", cfg, workers=8)
         pairs += n
         for i, h in enumerate(hists):
             out.append({"id": "cov_%s_%s_r%d_%d" % (alpha, model, retries, i), "model": model,
@@ -335,7 +333,7 @@ def run(prop, tier, replay=None):
         "exhaustive": False,
     }
     vlib.write_evidence(prop, tier, "model_checking", cov,
-                        ["bounded constants in the design check (2 points, <=3 updates, depth %d)" % (6 if tier == "quick" else 7),
+                        ["bounded constants in the design check (2 points, <=3 updates, depth %d)" % (5 if tier == "quick" else 7),
                          "conformance and monitor verdicts only on executed scenarios",
                          "harness codec and tokio paused-clock semantics trusted"],
                         time.time() - t0, len(unexplained))
